@@ -15,13 +15,19 @@ admin store installed as `allocation.context.GLOBAL.admin`:
   always a list, `assignments`);  `get/create/update/delete` with
   NoSuchObject / AlreadyExists results.
 
-The oracle never calls treadmill code: it parses `<n>%` and `<n>[KMG]` itself
-and sums in percent / bytes exactly as the property statement says.
+The oracle never calls treadmill code: it parses cpu (`<n>%`, bare `<n>`) and
+sizes itself, from the documented meaning of a size (docstring of
+`utils.size_to_bytes`: an integer is a byte count, a suffix K/M/G/T/P/E/Z/Y
+multiplies by a power of 1024, the same suffix followed by the optional `B`
+modifier by a power of 1000 - `1K` = 1024, `1KB` = 1000; case and surrounding
+blanks are irrelevant), and sums in percent / bytes exactly as the property
+statement says.
 """
 import copy
 import itertools
 import json
 import os
+import re
 import traceback
 import types
 
@@ -181,12 +187,13 @@ def env():
         logging.disable(logging.CRITICAL)
         from treadmill.api import allocation
         from treadmill import exc
+        from treadmill import utils
         fake = FakeAdmin()
         allocation.context = types.SimpleNamespace(
             GLOBAL=types.SimpleNamespace(admin=fake))
         api = allocation.API()
         _ENV.update(
-            mod=allocation, fake=fake, exc=exc,
+            mod=allocation, fake=fake, exc=exc, utils=utils,
             create=api.reservation.create.__wrapped__,
             update=api.reservation.update.__wrapped__,
         )
@@ -197,32 +204,66 @@ def env():
 # independent arithmetic
 # ---------------------------------------------------------------------------
 
-_UNIT = {'K': 1024, 'M': 1024 ** 2, 'G': 1024 ** 3}
+# exponent of the unit, from the documented suffix list K M G T P E Z Y
+_EXPONENT = {u: i + 1 for i, u in enumerate('KMGTPEZY')}
+_SIZE_RE = re.compile(r'^([0-9]+)([KMGTPEZY]?)(B?)$')
+_CPU_RE = re.compile(r'^([0-9]+)(%?)$')
 
 
 def pct(s):
-    s = str(s).strip()
-    if not s.endswith('%'):
-        raise HarnessError('menu cpu without %%: %r' % (s,))
-    return int(s[:-1])
+    """cpu: `<n>%` or a bare `<n>` (utils.cpu_units: same number)."""
+    m = _CPU_RE.match(str(s).strip())
+    if not m:
+        raise HarnessError('menu cpu not understood: %r' % (s,))
+    return int(m.group(1))
 
 
-def nbytes(s):
-    s = str(s).strip()
-    u = s[-1].upper()
-    if u not in _UNIT:
-        raise HarnessError('menu size without unit: %r' % (s,))
-    return int(s[:-1]) * _UNIT[u]
+def size_kind(s):
+    """(kind, lower-case?, padded?) of a spelled size."""
+    raw = str(s)
+    m = _SIZE_RE.match(raw.strip().upper())
+    if not m:
+        raise HarnessError('menu size not understood: %r' % (s,))
+    if not m.group(2):
+        kind = 'plain-bytes'
+    elif m.group(3):
+        kind = 'decimal-suffix'
+    else:
+        kind = 'binary-suffix'
+    return kind, raw != raw.upper(), raw != raw.strip()
 
 
-def vec(rec):
-    return (pct(rec['cpu']), nbytes(rec['memory']), nbytes(rec['disk']))
+def nbytes(s, reading=None):
+    """Bytes meant by a spelled size, from the documented meaning.  `reading`
+    (non-vacuity counters only) selects a deliberately WRONG reading:
+    'all-binary' takes KB/MB/.. as powers of 1024, 'all-decimal' takes K/M/..
+    as powers of 1000."""
+    m = _SIZE_RE.match(str(s).strip().upper())
+    if not m:
+        raise HarnessError('menu size not understood: %r' % (s,))
+    num, unit, mod = m.groups()
+    if not unit:
+        return int(num)             # '<n>' and '<n>B': bytes
+    base = 1000 if mod else 1024
+    if reading == 'all-binary':
+        base = 1024
+    elif reading == 'all-decimal':
+        base = 1000
+    return int(num) * base ** _EXPONENT[unit]
+
+
+def vec(rec, reading=None):
+    return (pct(rec['cpu']), nbytes(rec['memory'], reading),
+            nbytes(rec['disk'], reading))
 
 
 def spell(nb, style=0):
-    """Render a byte count that is a multiple of 1K.  style 0: largest unit
-    that divides it, style 1: always K, style 2: lower-case largest unit."""
-    assert nb % 1024 == 0 and nb >= 0, nb
+    """Render a byte count as a schema-valid request size `<n>[KMG]`, rounded
+    DOWN to whole K (a bound that is not a multiple of 1K - decimal
+    capacities - has its boundary between floor and floor + 1K).  style 0:
+    largest unit that divides it, style 1: always K, style 2: lower-case
+    largest unit."""
+    assert nb >= 0, nb
     k = nb // 1024
     if style == 1:
         return '%dK' % k
@@ -250,8 +291,9 @@ def effective(store, verb, rid, rsrc):
     return cell, alloc, eff
 
 
-def expected(store, verb, rid, rsrc):
-    """(accept?, reason) by the property statement."""
+def expected(store, verb, rid, rsrc, reading=None):
+    """(accept?, reason, shared) by the property statement.  `reading`: see
+    nbytes() - only used to count the cases that tell readings apart."""
     cell, alloc, eff = effective(store, verb, rid, rsrc)
     partition = eff['partition']
     prec = store.partitions.get((partition, cell))
@@ -261,16 +303,16 @@ def expected(store, verb, rid, rsrc):
     else:
         cap = vec({'cpu': prec.get('cpu', '0%'),
                    'memory': prec.get('memory', '0G'),
-                   'disk': prec.get('disk', '0G')})
+                   'disk': prec.get('disk', '0G')}, reading)
         limits = prec.get('limits', [])
     others = [rec for (c, a), rec in store.allocs.items()
               if c == cell and rec.get('partition') == partition
               and not (c == cell and a == alloc)]
-    req = vec(eff)
+    req = vec(eff, reading)
     shared = False
     verdict = (True, None)
     for i, dim in enumerate(DIMS):
-        tot = sum(vec(o)[i] for o in others) + req[i]
+        tot = sum(vec(o, reading)[i] for o in others) + req[i]
         if tot > cap[i] and verdict[0]:
             verdict = (False, ('capacity', dim, tot, cap[i]))
     for lim in limits:
@@ -279,12 +321,63 @@ def expected(store, verb, rid, rsrc):
         carrying = [o for o in others if lim['trait'] in o.get('traits', [])]
         if carrying:
             shared = True
-        lv = vec(lim)
+        lv = vec(lim, reading)
         for i, dim in enumerate(DIMS):
-            tot = sum(vec(o)[i] for o in carrying) + req[i]
+            tot = sum(vec(o, reading)[i] for o in carrying) + req[i]
             if tot > lv[i] and verdict[0]:
                 verdict = (False, ('trait', lim['trait'], dim, tot, lv[i]))
     return verdict[0], verdict[1], shared
+
+
+def misread(store, verb, rid, rsrc):
+    """Attribution only (never the verdict): which spellings among the values
+    this decision rests on does the real `utils.size_to_bytes` /
+    `utils.cpu_units` read differently from the documented meaning?  Returns
+    sorted labels such as 'size_to_bytes:decimal-suffix'; the cause is
+    narrowed to 'padded' / 'lower-case' when the same value without the
+    blanks / in upper case is read correctly."""
+    cell, _alloc, eff = effective(store, verb, rid, rsrc)
+    partition = eff['partition']
+    recs = [eff]
+    prec = store.partitions.get((partition, cell))
+    if prec is not None:
+        recs.append(prec)
+        recs.extend(prec.get('limits', []))
+    recs.extend(rec for (c, _a), rec in store.allocs.items()
+                if c == cell and rec.get('partition') == partition)
+    utils = env()['utils']
+
+    def reads(fn, val, want):
+        try:
+            return fn(val) == want
+        except Exception:  # pylint: disable=broad-except
+            return False
+
+    out = set()
+    for rec in recs:
+        for dim in ('memory', 'disk'):
+            val = rec.get(dim)
+            if val is None:
+                continue
+            want = nbytes(val)
+            if reads(utils.size_to_bytes, val, want):
+                continue
+            kind, lower, padded = size_kind(val)
+            if padded and reads(utils.size_to_bytes, str(val).strip(), want):
+                kind = 'padded'
+            elif lower and reads(utils.size_to_bytes, str(val).upper(), want):
+                kind = 'lower-case'
+            out.add('size_to_bytes:' + kind)
+        val = rec.get('cpu')
+        if val is not None and not reads(utils.cpu_units, val, pct(val)):
+            sval = str(val)
+            if sval != sval.strip() and reads(utils.cpu_units, sval.strip(),
+                                              pct(val)):
+                kind = 'padded'
+            else:
+                kind = 'percent' if '%' in sval else 'bare-number'
+            out.add('cpu_units:' + kind)
+    return sorted(out)
 
 
 def store_invariant(store):
@@ -355,10 +448,11 @@ def call(store, verb, rid, rsrc):
     return 'accept', {}
 
 
-def form_of(verb, rsrc):
+def form_of(verb, rsrc, wrong=()):
     omitted = [k for k in ('partition', 'traits') if k not in rsrc]
-    return 'reservation.%s%s' % (
-        verb, '(omitted:%s)' % '+'.join(omitted) if omitted else '')
+    return 'reservation.%s%s%s' % (
+        verb, '(omitted:%s)' % '+'.join(omitted) if omitted else '',
+        '[misread %s]' % '+'.join(wrong) if wrong else '')
 
 
 def judge(store_before, store_after, verb, rid, rsrc, outcome, info,
@@ -370,10 +464,19 @@ def judge(store_before, store_after, verb, rid, rsrc, outcome, info,
               'expected': 'accept' if ok else 'reject',
               'expected_reason': reason, 'observed': outcome,
               'observed_info': info}
+    wrong = ()
+    if outcome == 'error' or (outcome == 'accept') != ok:
+        # a wrong decision: does it come from the unit conversion?  (site
+        # qualifier only; the verdict above is the accept/reject decision)
+        wrong = misread(store_before, verb, rid, rsrc)
+        if wrong:
+            detail['misread_by_utils'] = wrong
     if outcome == 'error':
         # site = innermost frame in api/allocation.py + exception type + a
         # minimal signature of the request kind (DESIGN 2.7)
-        if verb == 'update' and 'partition' not in rsrc:
+        if wrong:
+            sig = 'misread %s' % '+'.join(wrong)
+        elif verb == 'update' and 'partition' not in rsrc:
             sig = 'update-omits-partition'
         elif shared:
             sig = 'shared-limited-trait'
@@ -385,11 +488,11 @@ def judge(store_before, store_after, verb, rid, rsrc, outcome, info,
     elif outcome == 'accept' and not ok:
         clause = ('accepted-over-capacity' if reason[0] == 'capacity'
                   else 'accepted-over-trait-limit')
-        viol.append({'clause': clause, 'site': form_of(verb, rsrc),
+        viol.append({'clause': clause, 'site': form_of(verb, rsrc, wrong),
                      'detail': detail})
     elif outcome == 'reject' and ok:
         viol.append({'clause': 'rejected-although-fits',
-                     'site': form_of(verb, rsrc), 'detail': detail})
+                     'site': form_of(verb, rsrc, wrong), 'detail': detail})
     if outcome != 'accept' and store_after.key() != store_before.key():
         viol.append({'clause': 'refused-request-changed-store',
                      'site': form_of(verb, rsrc), 'detail': detail})
@@ -581,6 +684,11 @@ def partition_menu(tier):
         p('plain', '100%', '4G', '6G', []),
         p('gpu', '100%', '4G', '6G', [gpu]),
         p('gpu+ssd', '100%', '4096M', '6G', [gpu, ssd]),
+        # capacity and limit written with decimal suffixes (powers of 1000):
+        # every bound lies strictly between two whole K
+        p('gpu-decimal', '100%', '4GB', '6000MB',
+          [{'trait': 'gpu', 'cpu': '50%', 'memory': '2GB',
+            'disk': '3000000KB'}]),
     ]
     if tier == 'thorough':
         menu += [
@@ -608,6 +716,9 @@ def existing_menu(tier):
         for size in (SIZE_A, SIZE_B):
             menu.append({'cell': CELL, 'partition': PART, 'traits': tr,
                          'cpu': size[0], 'memory': size[1], 'disk': size[2]})
+    # a stored reservation written with decimal suffixes
+    menu.append({'cell': CELL, 'partition': PART, 'traits': ['gpu'],
+                 'cpu': '10%', 'memory': '1GB', 'disk': '500MB'})
     # must not count: same partition name in another cell, other partition
     menu.append({'cell': OTHER_CELL, 'partition': PART, 'traits': ['gpu'],
                  'cpu': '90%', 'memory': '3G', 'disk': '3G'})
@@ -699,16 +810,23 @@ def single_cases(tier, pname, prec, menu, combo):
         e['alloc'] = 't/e%d' % i
         existing.append(e)
     partitions = [prec] if prec else []
+    return _requests(partitions, existing, request_trait_menu(tier), pname,
+                     existing)
+
+
+def _requests(partitions, existing, trait_menu, pname, update_targets):
+    """create of a new id and update of every `update_targets` entry, every
+    request-trait choice, sizes around every boundary."""
     store = build_store(partitions, existing)
     targets = [('create', 't/new/%s' % CELL)]
-    for e in existing:
+    for e in update_targets:
         if e['cell'] == CELL:
             targets.append(('update', '%s/%s' % (e['alloc'], CELL)))
         else:
             # same allocation name in another cell: a *different* id
             targets.append(('create', '%s/%s' % (e['alloc'], CELL)))
     for verb, rid in targets:
-        for traits in request_trait_menu(tier):
+        for traits in trait_menu:
             overall, bound = _bounds(store, verb, rid, traits, PART)
             for tag, (cpu, mem, disk) in request_sizes(overall, bound):
                 rsrc = {'cpu': cpu, 'memory': mem, 'disk': disk,
@@ -720,6 +838,139 @@ def single_cases(tier, pname, prec, menu, combo):
                 yield {'kind': 'single', 'partitions': partitions,
                        'existing': existing, 'verb': verb, 'id': rid,
                        'rsrc': rsrc, 'tag': tag, 'partition_menu': pname}
+
+
+# ---------------------------------------------------------------------------
+# menus, part C: one configuration, its stored records (partition capacity,
+# trait limit, two existing reservations) written in every spelling the unit
+# conversion documents
+# ---------------------------------------------------------------------------
+
+_SUFFIX = ['', 'K', 'M', 'G', 'T', 'P', 'E', 'Z', 'Y']
+BASE_STYLE = (3, '', False, False)          # '<n>G', what the tools write
+
+
+def style_name(style):
+    return render_size(1024 ** style[0], style)
+
+
+def render_size(nb, style):
+    """`nb` bytes written as a whole number of 1024**scale with the style's
+    suffix.  With the 'B' modifier the SAME number then means powers of 1000
+    (a slightly smaller quantity): the oracle reads what is written."""
+    scale, mod, lower, pad = style
+    q, r = divmod(nb, 1024 ** scale)
+    if r:
+        raise HarnessError('%d is not a whole number of %s' % (
+            nb, _SUFFIX[scale]))
+    suf = _SUFFIX[scale].lower() if lower else _SUFFIX[scale]
+    text = '%d%s%s' % (q, suf, mod)
+    return ' %s ' % text if pad else text
+
+
+def render_cpu(percent, style):
+    """cpu of a record: '<n>%'; the plain-bytes styles also write cpu as a
+    bare number, the padded ones pad it."""
+    text = '%d' % percent if style[0] == 0 else '%d%%' % percent
+    return ' %s ' % text if style[3] else text
+
+
+def spelling_styles(level, scales=(1, 2, 3, 4)):
+    """(scale, modifier, lower-case, padded).  level 0: K M G T upper / lower
+    case with and without the B modifier, plain bytes ('<n>', '<n>B',
+    '<n>b'), padded G / GB.  level 1 adds mixed case ('Gb', 'gB') and more
+    padded forms."""
+    out = [BASE_STYLE]
+    for scale in scales:
+        out += [(scale, '', False, False), (scale, 'B', False, False),
+                (scale, '', True, False), (scale, 'b', True, False)]
+    out += [(0, '', False, False), (0, 'B', False, False),
+            (0, 'b', True, False),
+            (3, '', False, True), (3, 'B', False, True)]
+    if level >= 1:
+        for scale in scales:
+            out += [(scale, 'b', False, False), (scale, 'B', True, False)]
+        out += [(0, '', False, True), (2, 'b', True, True)]
+    seen, uniq = set(), []
+    for st in out:
+        if st not in seen:
+            seen.add(st)
+            uniq.append(st)
+    return uniq
+
+
+def _deviating(styles, nrec, maxdev):
+    """Every assignment of a style to each of `nrec` records in which at most
+    `maxdev` records leave the base style; fewest deviations first."""
+    others = [st for st in styles if st != BASE_STYLE]
+    for ndev in range(0, maxdev + 1):
+        for where in itertools.combinations(range(nrec), ndev):
+            for pick in itertools.product(others, repeat=ndev):
+                asg = [BASE_STYLE] * nrec
+                for pos, st in zip(where, pick):
+                    asg[pos] = st
+                yield tuple(asg)
+
+
+SPELLED_RECORDS = ('capacity', 'gpu-limit', 'reservation-e0(gpu)',
+                   'reservation-e1')
+
+
+def spelling_plan(tier):
+    """[(unit exponent, assignment)] - complete within the stated bounds:
+    quick: unit T, level-0 styles, <= 2 of the 4 records off the base style;
+    thorough: unit T, level-0 styles with <= 3 off, level-1 styles with <= 2
+    off; unit E (2**60) with the suffixes T P E, <= 2 off."""
+    plan, seen = [], set()
+
+    def add(unit, gen):
+        for asg in gen:
+            if (unit, asg) not in seen:
+                seen.add((unit, asg))
+                plan.append((unit, asg))
+
+    if tier == 'quick':
+        add(4, _deviating(spelling_styles(0), 4, 2))
+    else:
+        add(4, _deviating(spelling_styles(1), 4, 2))
+        add(4, _deviating(spelling_styles(0), 4, 3))
+        add(6, _deviating(spelling_styles(0, scales=(4, 5, 6)), 4, 2))
+    return plan
+
+
+def spelled_config(unit, asg):
+    """The part-C configuration with every quantity a whole number of
+    1024**unit, each record written in its style."""
+    u = 1024 ** unit
+    cap, lim, e0, e1 = asg
+
+    def rec(style, cpu, mem, disk):
+        return {'cpu': render_cpu(cpu, style),
+                'memory': render_size(mem * u, style),
+                'disk': render_size(disk * u, style)}
+
+    # memory and disk differ everywhere so that a mixed-up dimension shows
+    partition = dict(rec(cap, 100, 8, 12), partition=PART, cell=CELL,
+                     limits=[dict(rec(lim, 50, 4, 6), trait='gpu')])
+    existing = [
+        dict(rec(e0, 10, 2, 1), cell=CELL, partition=PART, traits=['gpu'],
+             alloc='t/e0'),
+        dict(rec(e1, 20, 1, 2), cell=CELL, partition=PART, traits=[],
+             alloc='t/e1'),
+    ]
+    return [partition], existing
+
+
+SPELLED_TRAITS = [[], ['gpu']]
+
+
+def spelled_cases(unit, asg):
+    """create of a new id / update of e0, with and without the limited trait,
+    schema-valid sizes around every boundary."""
+    partitions, existing = spelled_config(unit, asg)
+    name = '/'.join(style_name(st).strip() or 'bytes' for st in asg)
+    return _requests(partitions, existing, SPELLED_TRAITS, name,
+                     existing[:1])
 
 
 # ---------------------------------------------------------------------------
